@@ -1,6 +1,7 @@
 package main
 
 import (
+	"fmt"
 	"go/token"
 
 	"golang.org/x/tools/go/ssa"
@@ -9,8 +10,8 @@ import (
 func init() { register("C25", propC25) }
 
 func propC25(c *Check) {
-	c.Explain = "Decides the exact-sum and share clauses of mint construction only: in buildUniversalMintTransaction (1) the mint input carries the batch amount returned by checkUniversalMintPossibility; (2) every kernel-node output of amount m.Work is paired, in the same iteration, with total = total.Add(m.Work) (accumulator shape: no output without accounting); (3) the custodian output of amount safe = amount.Div(10).Mul(4) is followed by total = total.Add(safe); (4) the last output's amount is amount.Sub(total) for that final total, so the outputs sum to the batch amount by construction, and there are exactly these three output sites; (5) the kernel share handed to distributeKernelMintByWorks is amount.Div(10).Mul(5) (five tenths, rounded down per tenth); (6) both 'total > amount => panic' assertions remain; (7) mintMultiBatchesSize is the accumulator of mintBatchSize(i) over i = old+1 .. batch (inclusive), panicking when old >= batch."
-	c.NotCov = "NOT DECIDED (numeric facts over all batches / work vectors): monotone non-increase of batch sizes, the pool bound, positivity of every share, work-monotonicity of distributeKernelMintByWorks."
+	c.Explain = "Decides the exact-sum and share clauses of mint construction only: in buildUniversalMintTransaction (1) the mint input carries the batch amount returned by checkUniversalMintPossibility; (2) every kernel-node output of amount m.Work is paired, in the same iteration, with total = total.Add(m.Work) (accumulator shape: no output without accounting); (3) the custodian output of amount safe = amount.Div(10).Mul(4) is followed by total = total.Add(safe); (4) the last output's amount is amount.Sub(total) for that final total, so the outputs sum to the batch amount by construction, and there are exactly these three output sites; (5) the kernel share handed to distributeKernelMintByWorks is amount.Div(10).Mul(5) (five tenths, rounded down per tenth); (6) both 'total > amount => panic' assertions remain; (7) mintMultiBatchesSize is the accumulator of mintBatchSize(i) over i = old+1 .. batch (inclusive), panicking when old >= batch; (8) distributeKernelMintByWorks: the per-node clamp of the work against avg*7 / avg / avg/7 is interpreted from its SSA fragment with an exact-integer model and is non-decreasing in the raw work for avg 1..40, w 0..45*avg+10, and the final share is work.Ration(totalW).Product(base) with one totalW and base for all nodes."
+	c.NotCov = "NOT DECIDED (numeric facts over all batches / work vectors): monotone non-increase of batch sizes, the pool bound, positivity of every share; work-monotonicity is decided for the clamp (finite evaluation, avg 1..40) and the order-preserving shape of the final share, not for the big-integer rounding of Ration/Product."
 	c.Floor(9)
 	f := c.F("(*kernel.Node).buildUniversalMintTransaction")
 	if f != nil {
@@ -98,5 +99,106 @@ func propC25(c *Check) {
 		}
 		c.Require(oki, "shape", shortName(g)+"|range old+1..batch", "i runs from old+1 to batch inclusive in steps of one", "loop bounds changed")
 		c.MustPass(g, Gate{Name: "old >= batch => panic", RejectOnTrue: true, Cond: Bin(token.GEQ, Param("old"), Param("batch"))}, acceptReturns(g), "returning a multi-batch amount")
+	}
+	// ---- work-monotonicity of the normalisation in distributeKernelMintByWorks: the clamp
+	// N(w; avg) applied to each node's work is interpreted (SSA fragment of one loop iteration,
+	// exact-integer model of common.Integer) for avg in 1..40 and every w in 0..45*avg+10, and must
+	// be non-decreasing in w; the final share is Ration(N(w), totalW).Product(base) with totalW and
+	// base the same for every node, which preserves the order.
+	if g := c.F("(*kernel.Node).distributeKernelMintByWorks"); g != nil {
+		avgM := Call("(common.Integer).Div", Call("(common.Integer).Sub"), AnyV)
+		mintsV := Extract(0, Call("(*kernel.Node).sortMintWorks"))
+		_ = mintsV
+		// the normalisation loop: the range loop whose body compares m.Work with avg*7
+		var norm *Loop
+		var cell ssa.Value
+		for _, h := range g.Blocks {
+			if h.Comment != "rangeindex.loop" || len(h.Succs) != 2 {
+				continue
+			}
+			blocks := naturalLoop(g, h)
+			hasUpperCmp := false
+			for bi := range blocks {
+				for _, ins := range g.Blocks[bi].Instrs {
+					if cl, ok := ins.(*ssa.Call); ok && Call("(common.Integer).Cmp", AnyV, Call("(common.Integer).Mul", avgM, ConstInt(7)))(cl) {
+						hasUpperCmp = true
+					}
+				}
+			}
+			if !hasUpperCmp {
+				continue
+			}
+			var firstLoadAddr ssa.Value
+			for _, ins := range h.Succs[0].Instrs {
+				if u, ok := ins.(*ssa.UnOp); ok && u.Op == token.MUL && firstLoadAddr == nil {
+					if _, p := accessPath(u.X); len(p) > 0 && p[len(p)-1] == "Work" {
+						firstLoadAddr = u.X
+					}
+				}
+			}
+			if firstLoadAddr != nil {
+				norm = &Loop{Name: "normalise", Header: h, Body: h.Succs[0], Blocks: blocks}
+				cell = firstLoadAddr
+			}
+		}
+		if norm == nil {
+			c.Undecided("anchor", shortName(g)+"|normalisation loop", "the loop that clamps m.Work against avg*7 / avg / avg/7", "not found (cannot decide work-monotonicity)", c.W.Pos(g.Pos()))
+		} else {
+			key := memKey(cell)
+			leaves := []leaf{{avgM, "avg"}}
+			total, bad, evalErr := 0, "", ""
+			for a := int64(1); a <= 40 && evalErr == "" && bad == ""; a++ {
+				prev := int64(-1)
+				prevW := int64(0)
+				for wv := int64(0); wv <= 45*a+10; wv++ {
+					it := newInterp(leaves, map[string]int64{"avg": a})
+					it.mem = map[string]any{key: wv}
+					first := true
+					_, err := it.run(norm.Body, norm.Header, func(b *ssa.BasicBlock) bool {
+						if first {
+							first = false
+							return false
+						}
+						return b == norm.Header
+					})
+					if err != nil {
+						evalErr = err.Error()
+						break
+					}
+					nv, ok := it.mem[key].(int64)
+					if !ok {
+						evalErr = "normalised work is not an evaluated integer"
+						break
+					}
+					total++
+					if nv < prev {
+						bad = fmt.Sprintf("avg=%d: work %d is normalised to %d but the smaller work %d to %d", a, wv, nv, prevW, prev)
+						break
+					}
+					prev, prevW = nv, wv
+				}
+			}
+			c.Sites += total
+			if evalErr != "" {
+				c.Undecided("finite-eval", shortName(g)+"|normalised work is monotone", "the clamp fragment is interpretable", evalErr, c.W.Pos(g.Pos()))
+			} else {
+				c.Require(bad == "", "finite-eval", shortName(g)+"|normalised work is monotone", "for avg in 1..40 and all w in 0..45*avg+10 the clamped work is non-decreasing in the raw work (a node with more work never gets a smaller weight)", bad+fmt.Sprintf(" (%d valuations)", total), c.W.Pos(g.Pos()))
+			}
+			// final share: m.Work = m.Work.Ration(totalW).Product(base), one totalW / base for all nodes
+			tot := PhiNamed("totalW")
+			n := 0
+			eachInstr(g, func(b *ssa.BasicBlock, ins ssa.Instruction) {
+				if st, ok := ins.(*ssa.Store); ok && !norm.Blocks[b.Index] {
+					if _, p := accessPath(st.Addr); len(p) > 0 && p[len(p)-1] == "Work" && blockInCycle(g, b) {
+						if Call("(common.RationalNumber).Product", Call("(common.Integer).Ration", AnyV, tot), Param("base"))(st.Val) {
+							n++
+						} else if !Call("(common.Integer).Add")(st.Val) && !Call("(common.Integer).Div")(st.Val) {
+							n = -100
+						}
+					}
+				}
+			})
+			c.Require(n == 1, "shape", shortName(g)+"|share = Ration(work, totalW).Product(base)", "after normalisation the only rewrite of m.Work is work.Ration(totalW).Product(base) with the loop-invariant total and base (order preserving)", "found "+itoa(n))
+		}
 	}
 }
